@@ -346,6 +346,17 @@ def check_modifiers(ctx, cfg):
         while t["k"] in ("ref", "refmut"):
             t = F.types[t["inner"]]
         return t["k"] == "adt" and t["adt"].endswith("::HandshakeModifier")
+    # necessary condition, independent of how the loop is written: some modifier is unimplemented in every build
+    # (Fallback), so an exit reporting Pattern(UnsupportedModifier) must exist in try_from (helpers inlined)
+    allv0 = [v["name"] for v in F.adt("params::patterns::HandshakeModifier")["variants"]]
+    tf_fn = F.fn(tf_body["path"])
+    if tf_fn is not None and set(allv0) - {"Psk", "Hfs"}:
+        Rtf = ctx.guards(cfg, tf_fn).R
+        has = any(v == ("Pattern", "UnsupportedModifier") for (b, v, st) in ret_err_sites(tf_fn, Rtf))
+        ctx.ob("modifier-handling", "try_from:rejects-unimplemented", has,
+               "HandshakeTokens::try_from has an exit reporting Pattern(UnsupportedModifier)" if has
+               else "no path of HandshakeTokens::try_from reports Pattern(UnsupportedModifier): the unimplemented modifier(s) %s are silently accepted" % sorted(set(allv0) - {"Psk", "Hfs"}),
+               where(tf_fn), cfg)
     ms = [e for e in hir.walk(tf_body["hir"]["value"]) if e.get("k") == "match" and e.get("scrut_t") is not None
           and is_mod(e["scrut_t"])]
     if not ms:
